@@ -580,7 +580,9 @@ func init() {
 	units = append(units,
 		inv("SellingPoolReserveAmountInvariant"),
 		inv("PayingPoolReserveAmountInvariant"),
-		inv("VestingPoolReserveAmountInvariant"))
+		inv("VestingPoolReserveAmountInvariant"),
+		// AllInvariants: `for _, inv := range []func(Keeper) sdk.Invariant{A, B, C} { res, stop := inv(k)(ctx); … }`
+		inv("AllInvariants"))
 }
 
 func init() {
